@@ -32,7 +32,7 @@ func itoa(i int) string { return strconv.Itoa(i) }
 func propC20() *fw.Prop {
 	return &fw.Prop{
 		ID: "C20", Level: "exploration",
-		Rule:        "process monitor: the numscript binary is built from the working tree by ./check; every case runs it as child processes and compares with the in-process library on the same inputs. `check FILE`: exit status ≠ 0 ⇔ analysis.CheckSource reports ≥ 1 error-severity diagnostic, and every diagnostic's position (FILE:line:character, 0- or 1-based accepted) and message appear on stdout. `run --output-format json` through each input channel {--raw, --stdin, script file + -v/-b/-m files}: on library success exit 0 and the decoded stdout (UseNumber) equals the library's postings (in order, amounts as exact integers), transaction metadata and account metadata; on library error (incl. parse errors) exit ≠ 0 and stderr contains the library's error message. Script classes: clean, warning-only, erroneous (name/type edits), unparsable, succeeding and failing at run time, amounts beyond 2^64, metadata, overdraft flag. Distinct = (script class, channel, outcome class). Added later: byte order marks, '%' in strings, odd asset names, input JSON as other encoders write it (escaped slashes, \\uXXXX, surrogate pairs), files of the file channel in other notations (1e+21, 10.0, BOM: the CLI may refuse them but must not answer from other data), scripts reading input metadata, files with 1..65536 error diagnostics, the parse error message on stderr.",
+		Rule:        "process monitor: the numscript binary is built from the working tree by ./check; every case runs it as child processes and compares with the in-process library on the same inputs. `check FILE`: exit status ≠ 0 ⇔ analysis.CheckSource reports ≥ 1 error-severity diagnostic, and every diagnostic's position (FILE:line:character, 0- or 1-based accepted) and message appear on stdout. `run --output-format json` through each input channel {--raw, --stdin, script file + -v/-b/-m files}: on library success exit 0 and the decoded stdout (UseNumber) equals the library's postings (in order, amounts as exact integers), transaction metadata and account metadata; on library error (incl. parse errors) exit ≠ 0 and stderr contains the library's error message. Script classes: clean, warning-only, erroneous (name/type edits), unparsable, succeeding and failing at run time, amounts beyond 2^64, metadata, overdraft flag. Distinct = (script class, channel, outcome class). Added later: byte order marks, '%' in strings, odd asset names, input JSON as other encoders write it (escaped slashes, \\uXXXX, surrogate pairs), files of the file channel in other notations (1e+21, 10.0, BOM: the CLI may refuse them but must not answer from other data), scripts reading input metadata, files with 1..4096 error diagnostics, the parse error message on stderr.",
 		Assumptions: []string{"harness generators; Go runtime and os/exec; the binary under test is $VERIF_NS_BIN built by ./check from /repo's working tree", "numscript.Parse + RunWithFeatureFlags over the bundled StaticStore is 'what the library computes'"},
 		Require:     []string{"processes_started", "check_runs_with_errors", "check_runs_clean", "run_success_compared", "run_failure_compared", "channel_raw", "channel_stdin", "channel_files", "amounts_beyond_64_bits"},
 		Run:         runC20,
@@ -307,7 +307,7 @@ func runC20(c *fw.Ctx) {
 	}
 	defer os.RemoveAll(dir)
 	// files with a given number of error diagnostics (exit statuses are small integers)
-	for k, ne := range []int{1, 2, 127, 128, 255, 256, 257, 511, 512, 513, 1024, 65536} {
+	for k, ne := range []int{1, 2, 127, 128, 255, 256, 257, 511, 512, 513, 1024, 4096} {
 		id := "errors/" + itoa(ne)
 		if !c.Want(10_000_000+k, id) {
 			continue
